@@ -50,6 +50,36 @@ PROPS['C15'] = dict(
     not_covered=['logical contents of golden files with nested buckets / multi-page values (tree layer not under contract)', 'init_file constants until unit O1 is built'],
 )
 
+A_FILE = 'std::fs::File is a stand-in with a ghost I/O trace (prelude/file.rs): seek/write_all/flush/sync_all append one event and may fail nondeterministically; sync_all is modelled with &mut self; a write() is visible through the shared mapping (Linux unified page cache)'
+A_TREE = 'A1/A2: the B+tree layer (InnerBucket::*, not under contract) frees only pages of its own snapshot or of this transaction, and the new tree lives in old-live minus freed plus allocated pages; INV-live: pages reachable from the current header are disjoint from the free set; fl_nodup: no double free'
+A_PAGEMUT = 'in-memory page construction (prelude/pagemut.rs): the header record / free-list entries behind a &mut Page are ghost projections of the Page value (stubs U4, U11, U12); arena blocks carry ghost length and alignment (prelude/arena.rs)'
+
+PROPS['C02'] = dict(
+    level='proof',
+    units=['commit', 'freelist', 'meta', 'db'],
+    kani_quick=['layout'],
+    explanation='Crash atomicity: TxInner::write_data is verified on its real body against a file stand-in whose every operation may fail: '
+                '(w1) every data write targets a page allocated in this transaction (T1/F1: from the free set or fresh, never a live page), '
+                '(w2) one header write, to the other slot, carrying exactly the transaction meta with a fresh checksum, and it is the last write, '
+                '(w3) ORDER data-writes* . Sync . header . Sync on Ok, every allocated page written; M1/M3 give recovery = newest valid header. '
+                'Lemma L1 (any crash prefix / any subset since the last sync shows old or new state) is the paper composition of these clauses.',
+    level_text='Every path of the real commit code (including all error exits) is proved against the trace contract; no bound on pages, sizes or history.',
+    level_note='Assumes the file/trace stand-in semantics, the tree layer frame A1/A2/INV-live, FNV (H0/H1). L1 composition on paper. Known finding E2 listed.',
+    assumptions=[A_TOOLS, A_ARITH, A_FILE, A_TREE, A_FNV, A_VIEWS, A_SEQ, A_PAGEMUT],
+    not_covered=['rebalance/spill/merge of the tree layer', 'torn-write granularity is argued on paper (L1) from (w2)/(M1-sens)'],
+)
+PROPS['C11'] = dict(
+    level='proof',
+    units=['commit', 'freelist'],
+    explanation='I/O errors in commit: every seek/write_all/flush/sync_all/metadata/resize in write_data may return Err in the stand-in; the `?` on each is the proof '
+                'that the error is propagated and nothing panics (all arithmetic/bounds obligations discharged under the stated size bound). '
+                '(w4a): an Err return after the header write can only come from the two known exits; (w4b)/(w4c) are the known finding E2.',
+    level_text='All fault sequences symbolically: each I/O call may fail independently on every path of the real code.',
+    level_note='Known finding E2 (Err after the header was written) is listed in known_findings.txt and printed, not alarmed. Same trusted base as C02.',
+    assumptions=[A_TOOLS, A_ARITH, A_FILE, A_SEQ, A_PAGEMUT],
+    not_covered=['behaviour of later transactions after E2 (demonstrated by replays/repro.rs e2)', 'short writes inside write_all (std retries; modelled as Ok or Err)'],
+)
+
 PENDING = 'not claimed yet in this build session: deciding units are not built (see DESIGN section 10)'
 NOT_APPLICABLE = {
     'C04': 'quantifies over thread schedules; Kani has no threads, Verus would need the code rewritten onto its permission types (a model) — DESIGN section 6',
@@ -57,5 +87,5 @@ NOT_APPLICABLE = {
     'C13': 'quantifies over schedules of OS processes and flock semantics; a sequential contract cannot decide mutual exclusion — DESIGN section 6',
     'C14': 'quantifies over client programs and is decided by rustc borrow/Send checking of each program, not by contracts on jammdb bodies — DESIGN section 6',
 }
-for _p in ['C01', 'C02', 'C03', 'C05', 'C06', 'C07', 'C08', 'C11', 'C16']:
+for _p in ['C01', 'C03', 'C05', 'C06', 'C07', 'C08', 'C16']:
     NOT_APPLICABLE.setdefault(_p, PENDING)
